@@ -36,7 +36,10 @@ type c19Case struct {
 	// ParallelAdmit: the user is not active yet and its sessions are admitted at the same time, each by its own
 	// goroutine doing what dispatchConnection does (GetUser, then GetSession), while the user database "takes a while"
 	ParallelAdmit bool `json:",omitempty"`
-	Writers       []c19Writer
+	// CloseStormMs > 0: at that moment the server closes every stream of the user at once (the proxied endpoints hang
+	// up): the closing notices are traffic to the user like any other
+	CloseStormMs int `json:",omitempty"`
+	Writers      []c19Writer
 }
 
 type c19Ev struct {
@@ -276,6 +279,16 @@ func c19Run(t *testing.T) func(sc c19Case) (vk.Result, error) {
 					}
 				}(w, st)
 			}
+			if sc.CloseStormMs > 0 {
+				go func() {
+					time.Sleep(time.Duration(sc.CloseStormMs) * time.Millisecond)
+					for _, p := range pairs {
+						for _, st := range p.sst {
+							go st.Close()
+						}
+					}
+				}()
+			}
 			time.Sleep(time.Duration(sc.Seconds) * time.Second)
 			stop.Store(true)
 			elapsed := time.Since(t0)
@@ -352,7 +365,7 @@ func c19Run(t *testing.T) func(sc c19Case) (vk.Result, error) {
 				return
 			}
 			T := elapsed.Seconds()
-			if txBack && sc.Seconds >= 5 {
+			if txBack && sc.Seconds >= 5 && sc.CloseStormMs == 0 {
 				got := sum(txEvs)
 				min := 0.99*float64(sc.TxRate)*T - float64(sc.TxRate) - 16400*float64(txWriters+1)
 				if float64(got) < min {
@@ -361,7 +374,7 @@ func c19Run(t *testing.T) func(sc c19Case) (vk.Result, error) {
 				}
 				res.Labels = append(res.Labels, "tx-backlogged")
 			}
-			if rxBack && rxBig && sc.Seconds >= 5 {
+			if rxBack && rxBig && sc.Seconds >= 5 && sc.CloseStormMs == 0 { // senders whose streams the peer closed stop early
 				got := sum(rx)
 				min := 0.985*float64(sc.RxRate)*T - float64(sc.RxRate) - 16400*float64(rxWriters+sc.Conns*sc.Sessions+1)
 				if float64(got) < min {
@@ -385,6 +398,9 @@ func c19Run(t *testing.T) func(sc c19Case) (vk.Result, error) {
 			res.Labels = append(res.Labels, fmt.Sprintf("sessions=%d", sc.Sessions))
 			if sc.ParallelAdmit {
 				res.Labels = append(res.Labels, "sessions-admitted-simultaneously")
+			}
+			if sc.CloseStormMs > 0 {
+				res.Labels = append(res.Labels, "all-streams-closed-at-once")
 			}
 			vk.AddLabel("C19", "Rates", "tx-events", int64(len(txEvs)))
 			vk.AddLabel("C19", "Rates", "rx-events", int64(len(rx)))
@@ -469,6 +485,20 @@ func c19Gen(rt *rapid.T) c19Case {
 			w.PauseMs = rapid.SampledFrom([]int{1, 50, 900, 1000, 2500}).Draw(rt, "pausems")
 		}
 		sc.Writers = append(sc.Writers, w)
+	}
+	if !deep && rapid.IntRange(0, 9).Draw(rt, "closestorm") < 3 {
+		// many streams, (almost) no download data, and the server closes them all at the same moment
+		sc.TxRate = rapid.SampledFrom([]int64{1000, 5000, 20000}).Draw(rt, "stormrate")
+		sc.Streams = rapid.IntRange(6, 10).Draw(rt, "stormstreams")
+		sc.Sessions = rapid.IntRange(2, 3).Draw(rt, "stormsessions")
+		if sc.Seconds < 10 {
+			sc.Seconds = 10
+		}
+		for i := range sc.Writers {
+			sc.Writers[i].Rx = true
+			sc.Writers[i].Sesh %= sc.Sessions
+		}
+		sc.CloseStormMs = rapid.SampledFrom([]int{1, 500, 2000, 4000}).Draw(rt, "stormat")
 	}
 	return sc
 }
